@@ -362,4 +362,6 @@ def run(P, R, tier):
     # the end of input is only seen by a reader that keeps being woken while bytes are left (round 9)
     from . import c03 as _c03r
     _c03r.reader_drains(P, R, 'C10.MPT.4')
+    # what the daemon's own senders print is what they were given: each conversion gets an argument of its width and kind
+    rules.fmt_args_agree(P, R, 'C10.FMT.2', {'iauth_send': 1, 'iauth_report_config': 1, 'iauth_report_stats': 1, 'iauth_x_query': 2})
     return EXPLANATION, ASSUMPTIONS
